@@ -12,6 +12,10 @@
                              Authenticate-Ack, provided RADIUS answered Access-Accept in that step when a
                              RADIUS client is configured (no RADIUS configured: the Ack alone)
      accepted_in c rs k      some output in rs is an accept event for session k
+     verdicts r              creation indexes of the sessions on which output r carries a PAP Authenticate-Ack
+                             or Authenticate-Nak (the session's PAP exchange got a verdict in that step)
+     accepted_latest c rs k  some output in rs is an accept event for session k and no later output in rs
+                             carries another PAP verdict for k: the session's LATEST PAP exchange was accepted
    A "session" is the record created by one PADR; [s_inst] numbers creations, so an id reused after the
    uint16 wrap is a different session. *)
 From Coq Require Import NArith List.
@@ -29,10 +33,18 @@ Local Open Scope N_scope.
                               table that has an accept event in the outputs of ops ++ [o]
    clientip_after_auth g    : every session holding a client address after o has such an accept event
    mac_ownership g          : every session record whose owner MAC differs from o's source MAC is in the
-                              table after o exactly as it was before (state, flags, address, counters)   *)
+                              table after o exactly as it was before (state, flags, address, identifier,
+                              counters, Host-Uniq, Service-Name, user name) - o being ANY frame: PADI, PADR,
+                              PADT or another discovery code with any tags and any session-id field, or a
+                              session-stage frame
+   emitted_to_owner g       : every frame sent while handling o that names a session (PADS, session-stage
+                              frames) is addressed to o's sender, and that station owns a session with
+                              that id (after o or before o)                                               *)
 Definition C04_statement : Prop :=
+  established_after_latest_auth gates_on /\ ipcp_ack_after_latest_auth gates_on /\
   established_after_auth gates_on /\ ipcp_ack_after_auth gates_on /\
-  clientip_after_auth gates_on /\ mac_ownership gates_on.
+  clientip_after_auth gates_on /\ mac_ownership gates_on /\ emitted_to_owner gates_on /\
+  verdict_on_requester gates_on.
 
 (* auth_gate, part 1: reported Established only after the PAP accept of that same session *)
 Theorem C04_auth_gate_established : forall c ops o s,
@@ -49,6 +61,22 @@ Theorem C04_auth_gate_ipcp_ack : forall c ops o f sid,
 Proof. exact ipcp_ack_gate. Qed.
 Print Assumptions C04_auth_gate_ipcp_ack.
 
+(* the strict reading of both: the accept must be the session's LATEST PAP verdict - a session whose PAP
+   exchange was accepted and later rejected (Authenticate-Nak after a RADIUS reject, error or timeout) is
+   neither shown Established nor answered with an IPCP Configure-Ack until a new exchange is accepted *)
+Theorem C04_auth_gate_established_latest : forall c ops o s,
+  In s (o_sessions (out_at c ops o)) -> s_state s = StEstablished ->
+  accepted_latest c (outs c (ops ++ [o])) (s_inst s).
+Proof. exact established_gate_latest. Qed.
+Print Assumptions C04_auth_gate_established_latest.
+
+Theorem C04_auth_gate_ipcp_ack_latest : forall c ops o f sid,
+  In f (o_frames (out_at c ops o)) -> ef_is ProtoIPCP 2 f = Some sid ->
+  exists s, In s (o_sessions (out_at c ops o)) /\ s_id s = sid /\
+            accepted_latest c (outs c (ops ++ [o])) (s_inst s).
+Proof. exact ipcp_ack_gate_latest. Qed.
+Print Assumptions C04_auth_gate_ipcp_ack_latest.
+
 (* clientip_after_auth: a client address is assigned only after the PAP accept of that same session *)
 Theorem C04_clientip_after_auth : forall c ops o s,
   In s (o_sessions (out_at c ops o)) -> s_ip s <> None ->
@@ -62,6 +90,24 @@ Theorem C04_mac_ownership : forall c ops o s,
   In s (st_sessions (exec c (ops ++ [o]))).
 Proof. exact ownership. Qed.
 Print Assumptions C04_mac_ownership.
+
+(* ... and the server never answers on a session towards a station that does not own it: whatever names
+   a session (the PADS of a PADR, every session-stage frame) goes to the sender of the frame being
+   handled, who owns a session with that id *)
+Theorem C04_emitted_to_owner : forall c ops o f d sid,
+  In f (o_frames (out_at c ops o)) -> ef_sid f = Some (d, sid) ->
+  d = op_src o /\
+  exists s, In s (st_sessions (exec c (ops ++ [o])) ++ st_sessions (exec c ops)) /\ s_id s = sid /\ s_mac s = d.
+Proof. exact emitted_owner. Qed.
+Print Assumptions C04_emitted_to_owner.
+
+(* "that same session's PAP exchange": a PAP Authenticate-Ack / Authenticate-Nak is only ever sent on the
+   session id named by the session-stage frame being handled, so the accept event of a session answers a
+   request made on that session (never a verdict carried over to another session of the same station) *)
+Theorem C04_verdict_on_requester : forall c ops o f sid,
+  In f (o_frames (out_at c ops o)) -> ef_pap_verdict f = Some sid -> op_sid o = Some sid.
+Proof. exact verdict_requester. Qed.
+Print Assumptions C04_verdict_on_requester.
 
 (* the table the outputs show (what the harness compares with the real server) is the Model's table *)
 Theorem C04_snapshot_is_table : forall c ops o,
@@ -82,7 +128,7 @@ Proof. exact inst_below_counter. Qed.
 Print Assumptions C04_creation_index_fresh.
 
 Theorem C04_full : C04_statement.
-Proof. exact (conj established_gate (conj ipcp_ack_gate (conj clientip_gate ownership))). Qed.
+Proof. exact (conj established_gate_latest (conj ipcp_ack_gate_latest (conj established_gate (conj ipcp_ack_gate (conj clientip_gate (conj ownership (conj emitted_owner verdict_requester))))))). Qed.
 Print Assumptions C04_full.
 
 (* the executable monitor the check runs over the real server's traces never rejects a trace of the
@@ -95,16 +141,20 @@ Print Assumptions C04_monitor_accepts_model.
 (* ... and it is sound for ANY observed trace, in particular the real server's: if it accepts tr, then
    at every step (o, r) of tr, with rs the outputs up to and including r and [table_after [] pre] the
    table shown after the previous frame (empty before the first), the four clauses hold of the
-   observations. So what the check enforces on the implementation is the property, not a proxy. *)
+   observations (the fifth: every emitted frame naming a session is addressed to the owner of a session
+   with that id in the table after or before the frame). So what the check enforces on the implementation is the property, not a proxy. *)
 Theorem C04_monitor_sound : forall c tr,
   accept_trace caccept 1 (c, sinit) tr = (0, 0) ->
   forall pre o r post, tr = pre ++ (o, r) :: post ->
   let rs := map snd pre ++ [r] in
-  (forall s, In s (o_sessions r) -> s_state s = StEstablished -> accepted_in c rs (s_inst s)) /\
+  (forall s, In s (o_sessions r) -> s_state s = StEstablished -> accepted_latest c rs (s_inst s)) /\
   (forall s, In s (o_sessions r) -> s_ip s <> None -> accepted_in c rs (s_inst s)) /\
   (forall f sid, In f (o_frames r) -> ef_is ProtoIPCP 2 f = Some sid ->
-     exists s, In s (o_sessions r) /\ s_id s = sid /\ accepted_in c rs (s_inst s)) /\
-  (forall s, In s (table_after [] pre) -> s_mac s <> op_src o -> In s (o_sessions r)).
+     exists s, In s (o_sessions r) /\ s_id s = sid /\ accepted_latest c rs (s_inst s)) /\
+  (forall s, In s (table_after [] pre) -> s_mac s <> op_src o -> In s (o_sessions r)) /\
+  (forall f d sid, In f (o_frames r) -> ef_sid f = Some (d, sid) ->
+     exists s, In s (o_sessions r ++ table_after [] pre) /\ s_id s = sid /\ s_mac s = d) /\
+  (forall f sid, In f (o_frames r) -> ef_pap_verdict f = Some sid -> op_sid o = Some sid).
 Proof. exact monitor_sound. Qed.
 Print Assumptions C04_monitor_sound.
 
@@ -149,3 +199,26 @@ Example C04_foreign_frame :
             st_sessions (exec cfg0 (w_happy ++ [w_padt 2 1])) = st_sessions (exec cfg0 w_happy) /\
             st_sessions (exec cfg0 (w_happy ++ [w_padt 1 1])) = [].
 Proof. exact foreign_frame_example. Qed.
+
+(* a PADR from station 2 that copies station 1's Host-Uniq, Service-Name and AC-Cookie (and carries station
+   1's session id in its header) gets a session of its own; station 1's Established record is untouched and
+   the PADS names the new session *)
+Example C04_foreign_padr_same_hostuniq :
+  exists a, In a (st_sessions (exec cfg0 w_happy_hu)) /\ s_mac a = 1 /\ s_hu a = Some [7;7] /\ s_state a = StEstablished /\
+            st_sessions (exec cfg0 (w_happy_hu ++ [w_padr_hu 2 1])) =
+              st_sessions (exec cfg0 w_happy_hu) ++ [fst (lcp_request cfg0 (w_new_sess 2 2 1))] /\
+            In (EDisc 2 CodePADS 2 [(TagServiceName, c_service cfg0); (TagHostUniq, [7;7])])
+               (o_frames (out_at cfg0 w_happy_hu (w_padr_hu 2 1))).
+Proof. exact foreign_padr_example. Qed.
+
+(* accept, then a rejected re-authentication on the same session: the record is Closed and unauthenticated,
+   keeps its ClientIP value (as coded), and the owner's IPCP Configure-Ack / Configure-Request change nothing
+   and are not answered *)
+Example C04_reject_after_accept :
+  exists s, st_sessions (exec cfg0 (w_happy ++ [w_sess 1 1 ProtoPAP w_pap 1])) = [s] /\
+            s_state s = StClosed /\ s_auth s = false /\ s_ip s <> None /\
+            s_state (set_state s StEstablished) = StEstablished /\
+            o_frames (out_at cfg0 (w_happy ++ [w_sess 1 1 ProtoPAP w_pap 1]) (w_sess 1 1 ProtoIPCP (ctl 2 2 []) 0)) = [] /\
+            o_frames (out_at cfg0 (w_happy ++ [w_sess 1 1 ProtoPAP w_pap 1]) (w_sess 1 1 ProtoIPCP (ctl 1 7 []) 0)) = [] /\
+            map s_state (st_sessions (exec cfg0 (w_happy ++ [w_sess 1 1 ProtoPAP w_pap 1; w_sess 1 1 ProtoIPCP (ctl 2 2 []) 0]))) = [StClosed].
+Proof. exact reject_after_accept_example. Qed.
